@@ -263,6 +263,19 @@ func (e *concEngine) handle(kind string, r *res.Request) {
 		e.c.Obs("group_mismatch", 1)
 	}
 	e.body(id, s.Group, s.Parallel)
+	// every fourth request handler hands the request itself to WithResource: the callback
+	// belongs to the same group and is queued behind the running handler
+	if !s.Parallel && core.Hash64(id)%4 == 0 {
+		ns := &concSub{ID: id + "+nested", Producer: -1, N: s.N, Kind: "withres-request", RID: s.RID, Group: s.Group, Cycle: s.Cycle, MayDrop: true}
+		e.mu.Lock()
+		e.subs[ns.ID] = ns
+		e.order = append(e.order, ns)
+		e.mu.Unlock()
+		ns.SeqCall = mon.Seq()
+		e.rig.S.WithResource(r, func() { e.body(ns.ID, ns.Group, false) })
+		ns.SeqRet = mon.Seq()
+		e.c.Obs("nested_withresource_from_handlers", 1)
+	}
 }
 
 var concRIDs = []string{"svc.mnt.wk.a.%d.t", "svc.mnt.wk.b.%d.t.u", "svc.res.%d", "svc.sa.%d", "svc.sb.%d", "svc.tag.g%d.x", "svc.tag.g%d.y", "svc.mnt.item.%d", "svc.mnt.tg.g%d.z", "svc.mnt.deep.x.%d", "svc.mnt.thru.g%d.q", "svc.par.%d", "svc", "svc.mnt", "svc.pg.%d"}
@@ -686,6 +699,41 @@ func (e *concEngine) checkExactlyOnce() {
 			contended[s.Group] = map[int]bool{}
 		}
 		contended[s.Group][s.Producer] = true
+	}
+	// real-time order of With* submissions per group: a call that returned before another call
+	// began was queued first (the enqueue is synchronous) and must start first
+	{
+		byGroup := map[string][]*concSub{}
+		for _, s := range e.order {
+			if s.Parallel || s.Kind == "unmatched" || strings.HasPrefix(s.Kind, "req:") || s.Kind == "query" || s.SeqRet == 0 {
+				continue
+			}
+			if _, ok := first[s.ID]; !ok {
+				continue
+			}
+			k := fmt.Sprintf("%d/%s", s.Cycle, s.Group)
+			byGroup[k] = append(byGroup[k], s)
+		}
+		for g, ss := range byGroup {
+			byRet := append([]*concSub(nil), ss...)
+			sort.Slice(byRet, func(i, j int) bool { return byRet[i].SeqRet < byRet[j].SeqRet })
+			sort.Slice(ss, func(i, j int) bool { return ss[i].SeqCall < ss[j].SeqCall })
+			var latest *concSub // the submission with the latest start among those that had returned
+			k := 0
+			for _, b := range ss {
+				for k < len(byRet) && byRet[k].SeqRet < b.SeqCall {
+					if latest == nil || first[byRet[k].ID].Start > first[latest.ID].Start {
+						latest = byRet[k]
+					}
+					k++
+				}
+				if latest != nil && first[latest.ID].Start > first[b.ID].Start {
+					c.Violation("C02/order:realtime", fmt.Sprintf("group %s: %s (%s) had returned before %s (%s) was called, but started after it", g, latest.ID, latest.Kind, b.ID, b.Kind),
+						map[string]interface{}{"earlier": latest, "later": b, "config": e.cfg})
+					break
+				}
+			}
+		}
 	}
 	// baton: global order per group
 	if e.cfg.Baton {
